@@ -4,6 +4,7 @@ set -e
 cd "$(dirname "$0")"
 export CARGO_NET_OFFLINE=true
 mkdir -p .cache logs evidence replays
+python3 lib/gen_cc.py >/dev/null
 # Engine K: compile the harness crate once (dependencies are cached in the target dir).
 (cd kani && cargo kani --target-dir ../.cache/kani-target/shared -Z unstable-options -Z stubbing --only-codegen >../logs/setup.kani.log 2>&1) || { tail -30 logs/setup.kani.log; exit 1; }
 # Engine S: build runtime + twins and validate them (when present).
